@@ -8,6 +8,7 @@ import (
 	"go/token"
 	"go/types"
 	"path/filepath"
+	"strconv"
 	"strings"
 
 	"github.com/mmcloughlin/avo/build"
@@ -49,29 +50,47 @@ func translateMov(repo string) []movRow {
 			return true
 		}
 		parts := flattenAnd(cc.List[0])
-		if len(parts) != 5 || len(cc.Body) != 1 {
-			rows = append(rows, movRow{Op: "?unparsed"})
+		if len(cc.Body) != 1 {
+			rows = append(rows, movRow{An: "0", Bn: "0", Op: "?unparsed"})
 			return true
 		}
-		get := func(i int) string { return strings.ReplaceAll(exprText(fset, src, parts[i]), " ", "") }
-		r := movRow{}
-		r.An = strings.TrimPrefix(get(0), "an==")
-		r.Pa = strings.TrimSuffix(strings.TrimPrefix(get(1), "operand.Is"), "(a)")
-		r.Bn = strings.TrimPrefix(get(2), "bn==")
-		r.Pb = strings.TrimSuffix(strings.TrimPrefix(get(3), "operand.Is"), "(b)")
-		switch get(4) {
-		case "(t.Info()&(types.IsInteger|types.IsBoolean))!=0":
-			r.Cond = "intbool"
-		case "(t.Info()&(types.IsInteger|types.IsUnsigned))==types.IsInteger":
-			r.Cond = "signed"
-		case "(t.Info()&(types.IsInteger|types.IsUnsigned))==(types.IsInteger|types.IsUnsigned)":
-			r.Cond = "unsigned"
-		case "(t.Info()&types.IsBoolean)!=0":
-			r.Cond = "bool"
-		case "(t.Info()&types.IsFloat)!=0":
-			r.Cond = "float"
-		default:
-			r.Cond = "?" + get(4)
+		// the conjuncts are recognised by shape, in any order; a missing size test is a wildcard (0)
+		r := movRow{An: "0", Bn: "0"}
+		bad := false
+		for _, pe := range parts {
+			t := strings.ReplaceAll(exprText(fset, src, pe), " ", "")
+			switch {
+			case strings.HasPrefix(t, "an=="):
+				r.An = strings.TrimPrefix(t, "an==")
+			case strings.HasPrefix(t, "bn=="):
+				r.Bn = strings.TrimPrefix(t, "bn==")
+			case strings.HasPrefix(t, "operand.Is") && strings.HasSuffix(t, "(a)"):
+				r.Pa = strings.TrimSuffix(strings.TrimPrefix(t, "operand.Is"), "(a)")
+			case strings.HasPrefix(t, "operand.Is") && strings.HasSuffix(t, "(b)"):
+				r.Pb = strings.TrimSuffix(strings.TrimPrefix(t, "operand.Is"), "(b)")
+			case t == "(t.Info()&(types.IsInteger|types.IsBoolean))!=0":
+				r.Cond = "intbool"
+			case t == "(t.Info()&(types.IsInteger|types.IsUnsigned))==types.IsInteger":
+				r.Cond = "signed"
+			case t == "(t.Info()&(types.IsInteger|types.IsUnsigned))==(types.IsInteger|types.IsUnsigned)":
+				r.Cond = "unsigned"
+			case t == "(t.Info()&types.IsBoolean)!=0":
+				r.Cond = "bool"
+			case t == "(t.Info()&types.IsFloat)!=0":
+				r.Cond = "float"
+			default:
+				bad = true
+			}
+		}
+		if _, e1 := strconv.Atoi(r.An); e1 != nil {
+			bad = true
+		}
+		if _, e2 := strconv.Atoi(r.Bn); e2 != nil {
+			bad = true
+		}
+		if bad || r.Pa == "" || r.Pb == "" || r.Cond == "" {
+			rows = append(rows, movRow{An: "0", Bn: "0", Op: "?unparsed"})
+			return true
 		}
 		call := exprText(fset, src, cc.Body[0].(*ast.ExprStmt).X)
 		r.Op = strings.TrimSuffix(strings.TrimPrefix(call, "c."), "(a, b)")
@@ -260,11 +279,15 @@ func c08(c *Ctx) {
 	b.WriteString("Definition R_mismatch := Eval vm_compute in idx_where (fun c => negb (mov_agree regs movtab reps c)) cases.\nPrint R_mismatch.\n")
 	b.WriteString("Definition R_violation := Eval vm_compute in idx_where (fun c => negb (mov_impl_ok c)) cases.\nPrint R_violation.\n")
 	b.WriteString("Definition R_bad_pairs := Eval vm_compute in bad_pairs regs movtab reps.\nPrint R_bad_pairs.\n")
-	b.WriteString("Lemma mov_table_checked : mov_table_ok regs movtab reps known_bad_pairs = true.\nProof. vm_compute. reflexivity. Qed.\nPrint Assumptions mov_table_checked.\n")
-	b.WriteString("Definition C08_load_store_correct := load_store_correct regs movtab reps mov_table_checked.\nPrint Assumptions C08_load_store_correct.\n")
 	o.WriteFile("Mov.v", b.String())
 	o.Stage("Mov.v")
-	o.Oblig("Mov.mov_table_checked", "Mov.C08_load_store_correct")
+	// the table-level lemma in a file of its own: when it fails the case lists above are still evaluated and
+	// name the component kinds and registers that go wrong
+	o.WriteFile("MovTable.v", progHeader+"From Avo Require Import Model.Forms Model.Mov Props.C08.\nFrom AvoGen Require Import Mov.\n"+
+		"Lemma mov_table_checked : mov_table_ok regs movtab reps known_bad_pairs = true.\nProof. vm_compute. reflexivity. Qed.\nPrint Assumptions mov_table_checked.\n"+
+		"Definition C08_load_store_correct := load_store_correct regs movtab reps mov_table_checked.\nPrint Assumptions C08_load_store_correct.\n")
+	o.Stage("MovTable.v")
+	o.Oblig("MovTable.mov_table_checked", "MovTable.C08_load_store_correct")
 	o.ExpectEmpty("Mov.v", "R_unparsed", "obligation", "a case of build/zmov.go has a shape or an opcode the model does not know")
 	o.ExpectEmpty("Mov.v", "R_mismatch", "mismatch", "first-matching-row model of Context.mov vs the instruction Context.Load/Store appends")
 	o.ExpectEmpty("Mov.v", "R_violation", "violation", "the move chosen for this component type and register accesses more or fewer bytes than the component, or extends it against Go's conversion rule")
